@@ -105,16 +105,16 @@ def run_ops(case):
                 i, m = op[1], M(op[2])
                 if K.skip("C19-setitem-at-len", i == len(model), out):
                     continue  # recorded finding: c[len(c)] = v writes onto rdf:nil / a bare head (pinned by an existing test)
-                nt |= i >= len(model) or (op[2] % len(MEMBERS)) in FALSY
-                if i >= len(model):
+                nt |= i >= len(model) or i < 0 or (op[2] % len(MEMBERS)) in FALSY
+                if i >= len(model) or i < -len(model):
                     exp_exc = IndexError
                 else:
                     model[i] = m
                 got = sut(c.__setitem__, i, m)
             elif name == "del":
                 i = op[1]
-                nt |= i >= len(model) or i == 0 or i == len(model) - 1
-                if i >= len(model):
+                nt |= i >= len(model) or i == 0 or i == len(model) - 1 or i < 0
+                if i >= len(model) or i < -len(model):
                     exp_exc = IndexError
                 else:
                     del model[i]
@@ -131,8 +131,8 @@ def run_ops(case):
                 got = sut(lambda: [key(x) for x in c])
             elif name == "get":
                 i = op[1]
-                nt |= i >= len(model) or (i < len(model) and not model[i])
-                if i >= len(model):
+                nt |= i >= len(model) or i < 0 or (0 <= i < len(model) and not model[i])
+                if i >= len(model) or i < -len(model):
                     exp_exc = IndexError
                 else:
                     exp = key(model[i])
@@ -257,7 +257,7 @@ def run_broken(case):
 def ops_strategy(tier):
     big = tier == "thorough"
     mi = st.integers(0, len(MEMBERS) - 1)
-    idx = st.integers(0, 7 if big else 6)
+    idx = st.one_of(st.integers(0, 7 if big else 6), st.integers(0, 7 if big else 6), st.integers(-7, -1))  # negative: from the end, like a list
     op = st.one_of(
         st.tuples(st.just("append"), mi), st.tuples(st.just("iadd"), st.lists(mi, max_size=3)),
         st.tuples(st.just("set"), idx, mi), st.tuples(st.just("del"), idx), st.tuples(st.just("del"), st.integers(0, 1)),
